@@ -1,3 +1,4 @@
 import LeraxProofs.C01
 import LeraxProofs.C03
 import LeraxProofs.C13
+import LeraxProofs.C06
